@@ -160,6 +160,8 @@ TRACE_JAVA = ["-Xss1g", "-XX:+UseSerialGC", "-Xmx3g", "-Dtlc2.tool.queue.IStateQ
 
 
 def trace_cfg(consts):
+    if "CheckLayout" in consts and "WeightsOnly" not in consts:      # TraceVerify's optional mode
+        consts = dict(consts, WeightsOnly="FALSE")
     c = "CONSTANTS\n" + "".join(f"  {k} = {v}\n" for k, v in consts.items())
     return c + "SPECIFICATION Spec\nCONSTRAINT Progress\nPOSTCONDITION Accepted\nCHECK_DEADLOCK FALSE\n"
 
@@ -271,6 +273,26 @@ def replay_trace(rep):
     vlib.run_harness(args)
     _, _, rejs = validate_trace_file(rep["module"], rep["consts"], tp, "replay_tv")
     return [r[1] for r in rejs]
+
+
+def long_batch_stage(prop, name, count, seed, weights_only=True, mode="VerifyOnly", timeout=3000):
+    """An honest batch of `count` DISTINCT small proofs (beyond what TLC enumerates as scenarios; above 256 members the
+    recorded call is split into one specification call per chunk), validated by TLC: every transcript operation of every
+    member, the weight transcript and generator of every chunk and - weights_only - that the weights, read off the final
+    check, are non-zero outputs of that chunk's generator and pairwise distinct; otherwise the whole final check."""
+    def member(i):
+        m = 2 if i % 5 == 3 else 1
+        sd = 1 if (mode != "VerifyOnly" and m == 1 and i % 3 == 0) else 0
+        return {"n": 2, "v": {"n": 2, "t": 1, "cap": m, "seed": sd, "label": i % 2, "proms": [[] for _ in range(m)], "pgH": 0, "pgG": 0, "commit": "same", "cj": 0},
+                "t": 1, "m": m, "cap": m, "seed": sd, "label": i % 2, "rng": "chacha", "vals": [[(i + j) % 4, 0, 0, 0] for j in range(m)], "proms": [[] for _ in range(m)],
+                "wit": {"j": 0, "kind": "ok"}, "mut": {"j": 0, "kind": "none", "slot": "none", "how": "none"}, "bseed": 0, "rvar": i, "zb": 0, "ppg": 0, "wshift": 0}
+    sc = {"family": "long", "sc": {"members": [member(i) for i in range(count)], "mode": mode, "skew": [0, 0, 0], "viabytes": False, "fill": [], "pair": False,
+                                   "first": 0, "wdiff": False, "samecommit": False},
+          "expect": {"prove": "ok", "verify": "ok", "masks": ["none"] * count}, "distinct": True}
+    consts = {"Strict": "FALSE", "CheckArith": "FALSE" if weights_only else "TRUE", "CheckLayout": "FALSE", "WeightsOnly": "TRUE" if weights_only else "FALSE"}
+    st = trace_stage(prop, name, [sc], seed, module="TraceVerify", consts=consts, calls="verify", arith=True, timeout=timeout)
+    st.samples = [{"long_batch": {"members": count, "chunks": (count + 255) // 256, "mode": mode, "weights_only": weights_only}}]
+    return st
 
 
 def pick_scenarios(family, tier, seed, pred, count, prop="x", must=None, must_count=2):
